@@ -56,9 +56,16 @@ pub fn ord_lines(rng: &mut Rng, idx: u64, maxvars: usize) -> Vec<String> {
                 let mut ext = cnf.linear_order();
                 let a = ext.new_last();
                 let b = ext.new_last();
+                // the same extension on top of the min-fill order (non-identity in general)
+                let mfext = guarded(|| {
+                    let mut e = cnf.min_fill_order();
+                    let x = e.new_last();
+                    format!("{},{}", x.value(), order_str(&e))
+                })
+                .unwrap_or_else(|e| e);
                 format!(
-                    "linear={} minfill={} force={} ext={},{},{}",
-                    order_str(&lin), mf, force, a.value(), b.value(), order_str(&ext)
+                    "linear={} minfill={} force={} ext={},{},{} mfext={}",
+                    order_str(&lin), mf, force, a.value(), b.value(), order_str(&ext), mfext
                 )
             });
             out.push(format!("{} => {}", head, r.unwrap_or_else(|e| e)));
@@ -72,7 +79,10 @@ pub fn ord_lines(rng: &mut Rng, idx: u64, maxvars: usize) -> Vec<String> {
                     .flat_map(|a| (0..n).map(move |b| (a, b)))
                     .map(|(a, b)| if o.lt(VarLabel::new_usize(a), VarLabel::new_usize(b)) { '1' } else { '0' })
                     .collect();
-                format!("order={} lt={}", order_str(&o), lt)
+                let mut ext = VarOrder::new(&perm.iter().map(|&x| VarLabel::new_usize(x)).collect::<Vec<_>>());
+                let a = ext.new_last();
+                let b = ext.new_last();
+                format!("order={} lt={} ext={},{},{}", order_str(&o), lt, a.value(), b.value(), order_str(&ext))
             });
             out.push(format!("{} => {}", head, r.unwrap_or_else(|e| e)));
         }
